@@ -231,10 +231,15 @@ def ref_normalize(q):
     if not q.called(HEX + ".get_node", ("sub", pick, C(1))):
         # second spelling: a for loop over enumerate(node[:16]) that is left by `break` at the first non-blank item
         en = q.ref("enumerate(node[:16])")
+        sl16 = q.ref("node[:16]")
         for t, v in q.truth.items():
             if v and t[0] == "sub" and t[2] == C(1) and t[1][0] == "iter" and t[1][1] == en:
                 if any(ev.k == "stmt" and isinstance(ev.node, ast.Break) for ev in q.st.events) and q.called(HEX + ".get_node", t):
                     pick = t[1]
+            elif v and t[0] == "iter" and t[1] == sl16:
+                # (the element enumerate() hands out is written as the element of node[:16] itself)
+                if any(ev.k == "stmt" and isinstance(ev.node, ast.Break) for ev in q.st.events) and q.called(HEX + ".get_node", t):
+                    pick = ("iter", en, t[2])
     sub = q.ref("self.get_node(X[1])", X=pick)
     ks = q.kinds(sub)
     if ks and ks <= frozenset(["LEAF", "EXT"]):
